@@ -64,7 +64,7 @@ class Ilp(FunctionContract):
             args["copies"] = copies
         self._w = None
         if weights:
-            ws = [z3.Int(f"w{j}") for j in range(k)]
+            ws = [z3.Real(f"w{j}") for j in range(k)]        # any positive weights, fractional ones included (sum(weights) may be below numbins)
             for w in ws:
                 it.assume(w > 0)
             self._w = ws
@@ -96,7 +96,7 @@ class Ilp(FunctionContract):
     def weighted(self, sums):
         if self._w is None:
             return list(sums)
-        return [s / z3.ToReal(w) for s, w in zip(sums, self._w)]
+        return [s / w for s, w in zip(sums, self._w)]
 
     def post(self, c, kind, res):
         n, k, copies, weights, objname, cons = self._shape
@@ -139,7 +139,15 @@ class Ilp(FunctionContract):
             alt_sums.append(sum([z3.ToReal(self._alt[str(vars_[i * k + j])]) * L.val(self._xs[i].t) for i in range(n)], z3.RealVal(0)))
         alt_w = self.weighted(alt_sums)
         spec = OBJ[objname][1]
-        out.append(("C17:objective-of-the-result-is-optimal-among-admissible-partitions", z3.Implies(self._alt_feasible, spec(ws) <= spec(alt_w))))
+        # "admissible" is defined HERE, from the property (non-negative counts, item i placed copies[i] times, bins in non-decreasing weighted
+        # order, the caller's constraint) - not by whatever constraints the code hands to the solver: an invalid extra cut in the model makes
+        # spec-admissible alternatives infeasible for the solver, and the 'minimises' clause of A3 then no longer carries this obligation
+        acnt = [[self._alt[str(vars_[i * k + j])] for j in range(k)] for i in range(n)]
+        adm = [a >= 0 for row in acnt for a in row] + [sum(row, z3.IntVal(0)) == cp for row, cp in zip(acnt, self._copies)] + [a <= b for a, b in zip(alt_w, alt_w[1:])]
+        if cons is not None:
+            C = z3.ToReal(self._C)
+            adm.append({"smallest==c": zmin(alt_w) == C, "largest<=c": zmax(alt_w) <= C, "smallest>=c": zmin(alt_w) >= C}[cons])
+        out.append(("C17:objective-of-the-result-is-optimal-among-admissible-partitions", z3.Implies(z3.And(adm), spec(ws) <= spec(alt_w))))
         return out
 
 
